@@ -7,7 +7,7 @@ use crate::rsim::{self, Trace};
 use crate::types::*;
 #[allow(unused_imports)]
 use rlib_io::make_output_macro_;
-use rlib_io::{Reader, Writer};
+use rlib_io::{Reader, Writable, Writer};
 use simcore::{escape_bytes, panic_message, unescape_bytes, Json};
 use std::cell::RefCell;
 use std::io::{self, Write};
@@ -31,9 +31,35 @@ pub enum WOp {
     /// `out!` / `outln!` expansions: kind selects a fixed statement, vals are its arguments
     Macro(usize, Vec<Val>),
     /// nested containers: 0 = Vec<Vec<i64>>, 1 = Vec<(i32, String)>, 2 = (Vec<u8>, i32) with
-    /// groups = [vector, [int]], 3 = Vec<Vec<String>>
+    /// groups = [vector, [int]], 3 = Vec<Vec<String>>, 4 = a user-defined Writable (u32, i64),
+    /// 5 = a vector of those, 6 = a user-defined Writable (String, u64)
     Nested(usize, Vec<Vec<Val>>),
     Flush,
+}
+
+/// A caller's own composite type: fields written through their own `Writable::write`, separators
+/// through `write_char` - no call of `Writer::write` in between.
+pub struct UserEdge {
+    pub u: u32,
+    pub v: i64,
+}
+impl Writable for UserEdge {
+    fn write(&self, writer: &mut Writer) {
+        self.u.write(writer);
+        writer.write_char(' ');
+        self.v.write(writer);
+    }
+}
+pub struct UserTagged {
+    pub name: String,
+    pub x: u64,
+}
+impl Writable for UserTagged {
+    fn write(&self, writer: &mut Writer) {
+        self.name.write(writer);
+        writer.write_char(' ');
+        self.x.write(writer);
+    }
 }
 
 pub fn fill_bytes(len: usize, salt: u8) -> Vec<u8> {
@@ -168,6 +194,9 @@ pub fn nested_shape_ok(k: usize, groups: &[Vec<Val>]) -> bool {
         1 => groups.iter().all(|g| g.len() == 2 && is_int(&g[0], IntTy::I32) && is_str(&g[1])),
         2 => groups.len() == 2 && groups[0].iter().all(|v| is_int(v, IntTy::U8)) && groups[1].len() == 1 && is_int(&groups[1][0], IntTy::I32),
         3 => groups.iter().all(|g| g.iter().all(is_str)),
+        4 => groups.len() == 1 && groups[0].len() == 2 && is_int(&groups[0][0], IntTy::U32) && is_int(&groups[0][1], IntTy::I64),
+        5 => groups.iter().all(|g| g.len() == 2 && is_int(&g[0], IntTy::U32) && is_int(&g[1], IntTy::I64)),
+        6 => groups.len() == 1 && groups[0].len() == 2 && is_str(&groups[0][0]) && is_int(&groups[0][1], IntTy::U64),
         _ => false,
     }
 }
@@ -555,10 +584,18 @@ pub fn exec(script: &[WOp], trace: &WTrace) -> WExecOut {
                             let v: (Vec<u8>, i32) = (groups[0].iter().map(u8::build).collect(), i32::build(&groups[1][0]));
                             writer.write(&v)
                         }
-                        _ => {
+                        3 => {
                             let v: Vec<Vec<String>> = groups.iter().map(|g| g.iter().map(String::build).collect()).collect();
                             writer.write(&v)
                         }
+                        // user-defined Writable impls that call the fields' own `write` and
+                        // `write_char` directly (the way rlib_mint and rlib_tensor do)
+                        4 => writer.write(&UserEdge { u: u32::build(&groups[0][0]), v: i64::build(&groups[0][1]) }),
+                        5 => {
+                            let v: Vec<UserEdge> = groups.iter().map(|g| UserEdge { u: u32::build(&g[0]), v: i64::build(&g[1]) }).collect();
+                            writer.write(&v)
+                        }
+                        _ => writer.write(&UserTagged { name: String::build(&groups[0][0]), x: u64::build(&groups[0][1]) }),
                     },
                     WOp::Flush => {
                         if pending == 0 {
